@@ -811,10 +811,28 @@ pub struct EnvGenCfg {
 }
 
 impl EnvGenCfg {
-    pub fn random(rng: &mut Sm, assets: usize) -> Self {
-        let ticks: Vec<u32> = (0..assets).map(|_| rng.range(1, 10) as u32).collect();
-        let center_k = (0..assets).map(|_| rng.range(20, 5000)).collect();
-        EnvGenCfg { ticks, center_k, half: rng.range(1, 6), max_invisible: 7, p_market: 0.12, w_new: 55, w_cancel: 20, w_modify: 25, large: rng.chance(0.03) }
+    pub fn random(rng: &mut Sm, assets: usize, levels: usize) -> Self {
+        let mut ticks: Vec<u32> = (0..assets).map(|_| rng.range(1, 10) as u32).collect();
+        let mut center_k: Vec<u64> = (0..assets).map(|_| rng.range(20, 5000)).collect();
+        let large = rng.chance(0.03);
+        // coarse grids (2% of the sessions, one or all assets): ticks so large that the price range holds only about as
+        // many grid prices as levels are published ((LEVELS-1)*tick still fits into the price type)
+        if !large && rng.chance(0.02) {
+            let one = rng.below(assets as u64) as usize;
+            let all = rng.chance(0.5);
+            for a in 0..assets {
+                if all || a == one {
+                    let l = levels.max(2) as u64;
+                    let hi = ((u32::MAX as u64) / (l - 1)).min((u32::MAX as u64 - 1) / 2);
+                    let lo = ((u32::MAX as u64 + 1) / (l + 3)).max(1 << 20).min(hi);
+                    let pow2 = 1u64 << (63 - hi.leading_zeros() as u64);
+                    ticks[a] = if rng.chance(0.33) && pow2 >= lo { pow2 as u32 } else { rng.range(lo, hi) as u32 };
+                    let max_k = (u32::MAX as u64 - 1) / ticks[a] as u64;
+                    center_k[a] = rng.range(1, max_k.max(1));
+                }
+            }
+        }
+        EnvGenCfg { ticks, center_k, half: rng.range(1, 6), max_invisible: 7, p_market: 0.12, w_new: 55, w_cancel: 20, w_modify: 25, large }
     }
 
     /// Batch of a large-volume session: per asset either a few non-crossing makers (own-side sums stay below 2^32) or
@@ -852,7 +870,8 @@ impl EnvGenCfg {
 
     pub fn price(&self, rng: &mut Sm, asset: usize) -> u32 {
         let c = self.center_k[asset];
-        let k = rng.range(c.saturating_sub(self.half).max(1), c + self.half);
+        let max_k = (u32::MAX as u64 - 1) / self.ticks[asset] as u64; // prices stay strictly below 2^32-1 (coarse grids)
+        let k = rng.range(c.saturating_sub(self.half).max(1), (c + self.half).min(max_k));
         (k * self.ticks[asset] as u64) as u32
     }
 
